@@ -5,7 +5,10 @@ from lib.rlngen import hx
 from lib import zkeygen
 
 THEOREMS = {"ZkProofs.C17": ["Zk.C17_all_backends_same_roots_and_paths", "Zk.C17_paths_in_circuit_format"],
-            "ZkProofs.C17Protocol": ["Zk.C17_stateless_verifier_agrees", "Zk.C17_stateless_prover_agrees"]}
+            "ZkProofs.C17Protocol": ["Zk.C17_stateless_verifier_agrees", "Zk.C17_stateless_prover_agrees"],
+            "ZkProofs.C17Zkey": ["Zk.C17_zkey_cursor_reads", "Zk.C17_zkey_cursor_original_statement_false", "Zk.C17_zkey_first_section_wins",
+                                 "Zk.C17_zkey_missing_section_panics", "Zk.C17_zkey_section_order_irrelevant", "Zk.C17_zkey_matrix_rows",
+                                 "Zk.C17_zkey_coefficient_value", "Zk.C17_zkey_coefficient_canonical", "Zk.C17_zkey_matrices"]}
 TREE_CONFIGS = ["pm", "full", "optimal", "ark"]
 
 
